@@ -203,7 +203,7 @@ impl StringDecoder for Unreal2StringDecoder {
 
     const DELIMITER: Self::Delimiter = [0x00];
 
-    fn decode_string(data: &[u8], cursor: &mut usize, delimiter: Self::Delimiter) -> GDResult<String> {
+    fn decode_string(data: &[u8], cursor: &mut usize, _delimiter: Self::Delimiter) -> GDResult<String> {
         let mut ucs2 = false;
         let mut length: usize = (*data
             .first()
@@ -244,21 +244,16 @@ impl StringDecoder for Unreal2StringDecoder {
 
             result
         } else {
-            // Else the string is null-delimited latin1
+            // Else the string is latin1: the length byte is followed by that many bytes
+            // (the delimiter, when present, is included in the length)
+            start += 1;
 
-            // TODO: Replace this with delimiter finder helper
-            let position = data
-            // Create an iterator over the data.
-                .iter()
-                // Find the position of the delimiter
-                .position(|&b| b == delimiter.as_ref()[0])
-                // If the delimiter is not found, use the whole data slice.
-                .unwrap_or(data.len());
-
-            length = position + 1;
+            let string_data = data
+                .get(start .. start + length)
+                .ok_or_else(|| PacketBad.context("Not enough data in buffer to read string"))?;
 
             // Decode as latin1
-            let (result, _, invalid_sequences) = WINDOWS_1252.decode(&data[0 .. position]);
+            let (result, _, invalid_sequences) = WINDOWS_1252.decode(string_data);
 
             if invalid_sequences {
                 return Err(PacketBad.context("latin1 string contained invalid character(s)"));
